@@ -31,13 +31,35 @@ def run():
             "rename/link/unlink/symlink are atomic (POSIX); no fsync/power-loss model",
             "unwind 2 with unwinding assertions on",
         ],
-        outside=["rayon scheduling in run_script", "power loss / fsync ordering", "the bodies of the thin wrappers (checked at MIR level where claimed)"])
+        outside=["rayon scheduling in run_script", "power loss / fsync ordering", "the std::fs calls themselves"])
     src, _ = e1.prepare()
     e1.run_harnesses(rep, "C05", src, specs_for(src, "C05"), jobs=8,
                      timeout=1500 if tier() == "quick" else 3600, replayer=e1.fs_replayer("faults", OPS))
-    try:
-        from obligations import C05_extra
-        C05_extra.add(rep, src)
-    except ImportError:
-        pass
+    wrappers(rep)
     return rep
+
+
+def wrappers(rep):
+    """E2 obligations on the code the Kani harnesses stub (thin std::fs wrappers, temp_file); replay = the native fault plans"""
+    import oblig
+    from common import Inconclusive, Obligation
+    from obligations import C05_e2
+    fsr = e1.fs_replayer("faults", {"w": "move"})
+    fsl = e1.fs_replayer("faults", {"w": "link"})
+
+    def replayer(o, name):
+        r = fsr if name in ("unsafe_copy", "mkdirs", "check_can_rename", "unsafe_rename") else fsl
+        ok, det = r({"harness": "w"}, None)
+        o.cex = dict(o.cex or {}, native_replay=det)
+        if ok is True:
+            o.stats["traces_validated"] = 1
+            o.detail += "; replayed natively: " + det
+        else:
+            o.verdict = "inconclusive"
+            o.detail += "; native fault plans: " + str(det)
+    try:
+        C05_e2.add(rep, oblig.Ctx(), replayer)
+    except Inconclusive as ex:
+        o = Obligation("file-system wrappers", "E2 mirsym/z3")
+        o.verdict, o.detail = "inconclusive", str(ex)
+        rep.add(o)
